@@ -799,6 +799,83 @@ def r12_hit_implies_stored(ctx, rule):
                {'hits': [U(r.value)[:80] for r in hits]})
 
 
+def r13_window_slices(ctx, rule):
+    """The sliding n-gram window of the OMEN generator is never written as `prefix[-k:]` with a k that can be 0: an initial n-gram
+    has ngram-1 >= 1 characters and the supported n-gram sizes start at 2, so ip_length - 1 IS 0 for 2-gram models and
+    `prefix[-0:]` is the whole prefix - the refilled prefix is then no key of the transition table, every refill after a backtrack
+    fails and strings of the level are silently missing (seeds C10-i, C18-i)."""
+    from .common import negated_slice_bounds
+    negated_slice_bounds(ctx, rule, ['lib_guesser/omen/'], {'self.ip_length': 1, 'self.ngram': 2, "grammar['ngram']": 2}, 3,
+                         'for 2-gram models the expression is 0 and x[-0:] is the whole string (x[:-0] the empty one), not the last 0 '
+                         'characters: the window is wrong for that n-gram size only, so strings are missing from every level')
+
+
+_BUDGET_ATOMS = ('self.target_level', 'target_level', 'working_target', 'req_level')
+
+
+def r14_zero_budget_is_valid(ctx, rule):
+    """A remaining level budget of 0 is a budget like any other: level-0 lengths, initial n-grams and transitions use it up
+    exactly.  The reference compares budgets only with levels, never with a constant; a test that tells budget 0 from budget 1
+    and leaves (or short-circuits the search) for 0 drops the strings whose remaining items all have level 0 (seed C11-i:
+    `working_target <= 0 or not self._increase_ip_for_target(..)` skipped every level-0 initial n-gram but the first).  A test
+    `budget < 0` prunes nothing reachable and is accepted."""
+    from ..core import _ends_with_jump
+    n = 0
+    bad = False
+    for rel in ('lib_guesser/omen/markov_cracker.py', 'lib_guesser/omen/guess_structure.py'):
+        m = ctx.repo.mod(rel)
+        for q_, fn in sorted(m.funcs.items()):
+            stores = stores_in(fn)
+            for node in walk_local(fn):
+                if not (isinstance(node, ast.Compare) and len(node.ops) == 1):
+                    continue
+                n += 1
+                for bud, other, flip in ((node.left, node.comparators[0], False), (node.comparators[0], node.left, True)):
+                    c = const(other)
+                    if c is NOCONST or isinstance(c, bool) or not isinstance(c, (int, float)):
+                        continue
+                    l = lin(expand(fn, bud, stores))
+                    if l is None or not any(a in _BUDGET_ATOMS and k > 0 for a, k in l.t.items()):
+                        continue
+                    op = type(node.ops[0])
+                    if flip:
+                        op = {ast.Lt: ast.Gt, ast.Gt: ast.Lt, ast.LtE: ast.GtE, ast.GtE: ast.LtE}.get(op, op)
+                    val = {ast.Lt: lambda b: b < c, ast.LtE: lambda b: b <= c, ast.Gt: lambda b: b > c, ast.GtE: lambda b: b >= c,
+                           ast.Eq: lambda b: b == c, ast.NotEq: lambda b: b != c}.get(op)
+                    if val is None or val(0) == val(1):
+                        continue       # does not tell an empty budget from a positive one
+                    at0 = val(0)
+                    q = '%s::%s' % (rel, q_)
+                    # where does the outcome for budget 0 lead?
+                    cur, pol = node, at0
+                    par = m.parents.get(id(cur))
+                    while isinstance(par, ast.UnaryOp) and isinstance(par.op, ast.Not):
+                        cur, pol, par = par, not pol, m.parents.get(id(par))
+                    prune = False
+                    if isinstance(par, ast.BoolOp):
+                        later = par.values[[id(v) for v in par.values].index(id(cur)) + 1:]
+                        short = (isinstance(par.op, ast.Or) and pol) or (isinstance(par.op, ast.And) and not pol)
+                        if short and any(isinstance(x, ast.Call) for v in later for x in ast.walk(v)):
+                            prune = True
+                    elif isinstance(par, (ast.If, ast.While)) and par.test is cur:
+                        branch = par.body if pol else par.orelse
+                        if isinstance(par, ast.If) and _ends_with_jump(branch):
+                            prune = True
+                        if isinstance(par, ast.While) and not pol:
+                            prune = True
+                    bad = True
+                    if prune:
+                        ctx.bad(rule, q, 'budget test %s gives up for an empty budget' % U(node)[:60],
+                                'a remaining budget of 0 is used up exactly by items of level 0; skipping the search for it drops every '
+                                'string whose remaining items are all level 0, while the trainer and the scorer still give those strings '
+                                'this level', None, node)
+                    else:
+                        ctx.unk(rule, q, 'budget test %s tells an empty budget from a positive one' % U(node)[:60])
+    if ctx.floor(rule, 'lib_guesser/omen/markov_cracker.py', n, 8, 'comparisons in the OMEN generator') and not bad:
+        ctx.ok(rule, 'lib_guesser/omen/markov_cracker.py', 'no comparison treats a zero level budget differently from a positive one '
+               '(%d comparisons)' % n)
+
+
 def r11_generator_state_per_object(ctx, rule):
     """Cursor, parse tree and cache belong to one generator / one optimizer: no OMEN class keeps a mutable container at class level
     that its methods change in place."""
@@ -808,7 +885,7 @@ def r11_generator_state_per_object(ctx, rule):
 
 def rules(tier):
     return [('C10.R1', r1_copy_discipline), ('C10.R2', r2_memo_key), ('C10.R3', r3_sibling_constructions), ('C10.R4', r4_exact_last_transition),
-            ('C10.R5', r5_sibling_cursor_advance), ('C10.R6', r6_model_immutable), ('C10.R7', r7_prune_discipline), ('C10.R8', r8_guess_from_tree), ('C10.R9', r9_level_cursor_domain), ('C10.R10', r10_cache_key_agreement), ('C10.R11', r11_generator_state_per_object), ('C10.R12', r12_hit_implies_stored)]
+            ('C10.R5', r5_sibling_cursor_advance), ('C10.R6', r6_model_immutable), ('C10.R7', r7_prune_discipline), ('C10.R8', r8_guess_from_tree), ('C10.R9', r9_level_cursor_domain), ('C10.R10', r10_cache_key_agreement), ('C10.R11', r11_generator_state_per_object), ('C10.R12', r12_hit_implies_stored), ('C10.R13', r13_window_slices), ('C10.R14', r14_zero_budget_is_valid)]
 
 
 META = {
